@@ -37,6 +37,7 @@ SIG_CROSS = 'cross-join-rendered-as-full-outer-join:exactly-one-side-empty'
 SIG_STALE = 'result-cache-keyed-by-sql-text:stale-after-storage-change'
 SIG_SHARED = 'result-cache-keyed-by-sql-text:shared-across-feeds'
 SIG_LAZY = 'lazy-origin-registered-once-per-process'
+SIG_UNUSED = 'lazy-table-without-used-column-not-registered'
 
 
 def tup(x):
@@ -368,10 +369,19 @@ class C06(fw.Check):
 
     def _report(self, rec) -> None:
         for what, sig in rec['violations']:
+            if sig.startswith('rows-differ:') and sum(v.signature.startswith('rows-differ:') for v in self.violations) >= 6:
+                continue  # enough failing inputs of this class for one run
             if sig in {v.signature for v in self.violations}:
                 continue  # one (minimised) witness per root cause
-            stmt, db = self._shrink(rec['stmt'], rec['db'], sig)
+            stmt, db = rec['stmt'], rec['db']
+            if sig not in self._known_signatures():
+                stmt, db = self._shrink(stmt, db, sig)
             self.violate(what, self._witness(stmt, db), sig, detail={'impl': {k: repr(v)[:400] for k, v in rec['impl'].items()}})
+
+    def _known_signatures(self) -> set:
+        if not hasattr(self, '_known'):
+            self._known = {e['signature'] for e in fw._load_findings(self.ID) if e.get('status') == 'finding'}  # pylint: disable=protected-access
+        return self._known
 
     def _shrink(self, stmt, db, sig):
         """greedy: smaller statement / fewer rows with the same signature on the real code"""
@@ -433,10 +443,16 @@ class C06(fw.Check):
             try:
                 parsed = sexp.loads(ans)
                 m_parse, m_sql, m_den = parsed[0][1], rel_from(parsed[1][1]), rel_from(parsed[2][1])
+                wf = parsed[0][2] == 'wf'
+                balanced = parsed[0][3] == 'balanced'
+                self.histogram['WF (hypothesis of the theorems) holds' if wf else 'WF does not hold'] += 0
             except Exception:  # pylint: disable=broad-except
                 self.diverge('model answer unreadable', sexp.dumps(g.short(stmt)), None, ans[:200])
                 continue
             i_parse = 'ok' if rec['parse'][0] == 'ok' else 'error'
+            if not wf:
+                self.diverge('a generated well-formed statement does not satisfy the WF predicate of the theorems',
+                             sexp.dumps(g.short(stmt)), 'well-formed', 'not-wf')
             if (m_parse == 'ok') != (i_parse == 'ok'):
                 self.diverge('parse outcome', sexp.dumps(g.short(stmt)), rec['parse'][:3] if i_parse != 'ok' else 'ok', m_parse)
                 continue
@@ -453,8 +469,12 @@ class C06(fw.Check):
             if m_den is None or exp.admits(m_den[1]) is not None:
                 self.diverge('Lean denote disagrees with the reference evaluator', sexp.dumps(g.short(stmt)),
                              repr(exp.all_rows)[:300], repr(m_den)[:300])
-            if not has_cross(stmt) and m_den is not None and m_sql[1] != m_den[1]:
-                self.diverge('instance of C06_denotation fails in the model', sexp.dumps(g.short(stmt)), repr(m_sql[1])[:300], repr(m_den[1])[:300])
+            if balanced and m_den is not None and m_sql[1] != m_den[1]:
+                self.diverge('instance of C06_denotation_partial fails in the model', sexp.dumps(g.short(stmt)), repr(m_sql[1])[:300], repr(m_den[1])[:300])
+            if not balanced and not has_cross(stmt):
+                self.diverge('crossBalanced fails without a CROSS join', sexp.dumps(g.short(stmt)), None, 'unbalanced')
+            if balanced and any(s_ == SIG_CROSS for _, s_ in rec['violations']):
+                self.diverge('the CROSS finding is reproduced outside the region the theorem excludes', sexp.dumps(g.short(stmt)), 'violation', 'balanced')
         if skipped:
             self.notes.append(f'parser level: skipped {dict(skipped)}')
         if sum(skipped.values()) > len(records) // 5:
@@ -471,6 +491,9 @@ class C06(fw.Check):
                 stmt = gen.statement(1)
                 if 'sqlite-nested-compound' in g.engine_limits(stmt) or not lazy_ok(stmt):
                     continue
+                if stmt[0] == 'query' and stmt[7] is not None:
+                    # a LIMIT that cuts through ties is not a function of the content (and would be cached): never cut
+                    stmt = stmt[:7] + (('rows', 100, 0),)
                 pool.append(stmt)
             dbs = [g.gen_db(rng, 0.05) for _ in range(2)] + [gen_db_nonnull(rng) for _ in range(2)]
             ops = []
@@ -516,7 +539,8 @@ class C06(fw.Check):
             reads = [o for o in ops if o[0] == 'read']
             for k, (op, out, m) in enumerate(zip(reads, outs, m_run)):
                 if out[0] != 'rows':
-                    self.diverge('reader raised', repr(op)[:200], out, repr(m)[:200])
+                    if m is not None:
+                        self.diverge('the real reader raises where the FeedCache model returns rows', repr(op)[:200], out, repr(m)[:200])
                     continue
                 kinds = [kk for _, kk in g.out_columns(op[2])]
                 got = collections.Counter(canon_rows(out[1], kinds))
@@ -524,8 +548,8 @@ class C06(fw.Check):
                     self.diverge(f'read #{k} of a history: FeedCache model and the real reader differ', repr(ops)[:300], repr(out[1])[:300], repr(m)[:300])
 
     def correspondence(self) -> None:
-        self._parser_level(self._cases(self.n(600, 12000)))
-        self._reader_level(self._histories(self.n(28, 400)))
+        self._parser_level(self._cases(self.n(600, 30000)))
+        self._reader_level(self._histories(self.n(28, 800)))
 
     # ---- search / replay ----------------------------------------------------------------------------------------------
     def search(self, reason: str) -> None:
@@ -566,7 +590,7 @@ class C06(fw.Check):
         if w.get('kind') == 'history':
             dbs = [db_from_json(d) for d in w['dbs']]
             ops = [tuple(tup(x) if i != 2 or o[0] != 'mutate' else db_from_json(x) for i, x in enumerate(o)) for o in w['ops']]
-            outs = run_history((dbs, ops))
+            outs = run_history((dbs, ops), shared_zygote())
             for what, sig, _ in judge_history(dbs, ops, outs):
                 return fw.Violation(what, w, sig)
             return None
@@ -768,6 +792,7 @@ def HISTORY_CORPUS():
     s1 = ('query', P, (e(P, 'id'), e(P, 'name')), None, (), None, (), None)
     s2 = ('query', D, (e(D, 'id'), e(D, 'head')), ('expr', 'gt', e(D, 'id'), ('lit', ('int', 0))), (), None, (), None)
     s3 = ('query', P, (e(P, 'name'), e(P, 'id')), None, (), None, (('ord', e(P, 'id'), 'asc'),), None)
+    s4 = ('query', ('join', P, D, 'cross', None), (e(P, 'name'),), None, (), None, (), None)
     dbs = [g.gen_db(rng, 0.0), g.gen_db(rng, 0.0), gen_db_nonnull(rng), gen_db_nonnull(rng)]
     other = [g.gen_db(rng, 0.0), g.gen_db(rng, 0.0), gen_db_nonnull(rng), gen_db_nonnull(rng)]
     return [
@@ -777,6 +802,7 @@ def HISTORY_CORPUS():
         (dbs, [('read', 2, s1), ('mutate', 2, other[2]), ('read', 2, s2), ('read', 2, s3)]),  # lazy: table registered once
         (dbs, [('read', 2, s2), ('read', 3, s1), ('read', 2, s3)]),  # two lazy feeds, one global backend
         (dbs, [('read', 2, s1), ('mutate', 2, other[2]), ('read', 2, s1)]),  # lazy + result cache
+        (dbs, [('read', 2, s4)]),  # lazy: a table of which no column is used
         (dbs, [('read', 0, s1), ('read', 0, s2), ('read', 0, s1)]),  # harmless: no change in between
         (dbs, [('read', 2, s1), ('restart',), ('read', 2, s1), ('read', 2, s2)]),  # harmless
         (dbs, [('mutate', 1, other[1]), ('read', 1, s2), ('restart',), ('read', 1, s2)]),  # harmless
@@ -821,6 +847,19 @@ class Zygote:
             self.proc.wait(timeout=10)
         except Exception:  # pylint: disable=broad-except
             self.proc.kill()
+
+
+_SHARED: list = []
+
+
+def shared_zygote() -> Zygote:
+    """one zygote for the finding replays of a run (closed at interpreter exit)"""
+    import atexit
+
+    if not _SHARED:
+        _SHARED.append(Zygote())
+        atexit.register(_SHARED[0].close)
+    return _SHARED[0]
 
 
 def run_history(history, zygote: typing.Optional[Zygote] = None) -> list:
@@ -885,6 +924,40 @@ def run_histories(histories, workers: int = 8) -> list:
     return results
 
 
+def unused_tables(stmt) -> set:
+    """tables of the statement none of whose columns is used anywhere (directly or through a reference to the table)"""
+    used, tables = set(), set()
+
+    def feature(f):
+        for el in dslgen.elements(f):
+            origin = el[1]
+            if origin[0] == 'table':
+                used.add(origin)
+            elif origin[0] == 'ref' and origin[1][0] == 'table':
+                used.add(origin[1])
+
+    def source(s_):
+        tag = s_[0]
+        if tag == 'table':
+            tables.add(s_)
+        elif tag == 'ref':
+            source(s_[1])
+        elif tag in ('join', 'set'):
+            source(s_[1])
+            source(s_[2])
+            if tag == 'join' and s_[4] is not None:
+                feature(s_[4])
+        elif tag == 'query':
+            source(s_[1])
+            if not s_[2]:
+                used.update(t for t in g.subsources(s_[1]) if t[0] == 'table')
+            for f in tuple(s_[2]) + tuple(s_[4]) + tuple(o[1] for o in s_[6]) + tuple(x for x in (s_[3], s_[5]) if x is not None):
+                feature(f)
+
+    source(stmt)
+    return tables - used
+
+
 def _mixed_explains(stmt, rows, versions) -> bool:
     """the rows are what the statement denotes over *some* mix of table contents the lazy storages held so far"""
     import itertools
@@ -937,7 +1010,13 @@ def judge_history(dbs, ops, outs) -> list:
             continue
         kinds = [kk for _, kk in g.out_columns(stmt)]
         if out[0] != 'rows':
-            verdicts.append((f'read via feed {feed} ({FEED_KINDS[feed]}) raises {out[1]}: {out[2]}', f'read-fails:{FEED_KINDS[feed]}:{out[1]}', idx))
+            sig = f'read-fails:{FEED_KINDS[feed]}:{out[1]}'
+            what = f'read via feed {feed} ({FEED_KINDS[feed]}) raises {out[1]}: {out[2]}'
+            if FEED_KINDS[feed] == 'lazy' and out[1] == 'DatabaseError' and unused_tables(stmt):
+                sig = SIG_UNUSED
+                what = (f'lazy feed {feed}: a table none of whose columns is used ({", ".join(sorted(t[1] for t in unused_tables(stmt)))}) '
+                        f'is not registered in the backend, the read raises {out[1]}')
+            verdicts.append((what, sig, idx))
             continue
         rows = canon_rows([tuple(r) for r in out[1]], kinds)
         bag = collections.Counter(rows)
@@ -947,7 +1026,15 @@ def judge_history(dbs, ops, outs) -> list:
             sig = f'read-differs:{kind}'
             what = f'read via feed {feed} ({kind}) returns rows other than denoted over its storage ({why})'
             earlier = [s for s in seen if s[1] == stmt and s[2] == bag and FEED_KINDS[s[0]] == kind]
-            if any(s[0] == feed and s[3] != version[feed] for s in earlier):
+            crossed = False
+            if has_cross(stmt):
+                try:
+                    crossed = cross_as_full(stmt, state[feed]).admits(rows) is None
+                except g.Undefined:
+                    pass
+            if crossed:
+                sig, what = SIG_CROSS, f'feed {feed} ({kind}): CROSS join over an empty and a non-empty side returns NULL-extended rows'
+            elif any(s[0] == feed and s[3] != version[feed] for s in earlier):
                 sig, what = SIG_STALE, f'feed {feed} ({kind}): re-reading a statement after its storage changed returns the rows of the earlier read'
             elif any(s[0] != feed for s in earlier):
                 sig, what = SIG_SHARED, f'feed {feed} ({kind}): returns the rows another feed read from another storage for the same SQL text'
